@@ -11,6 +11,10 @@ fn main() {
     if args.len() < 2 {
         usage();
     }
+    // anyhow captures a backtrace (under a global lock) for every error value when backtraces are
+    // enabled in the environment; errors are ordinary outcomes here, so switch that off.
+    std::env::set_var("RUST_LIB_BACKTRACE", "0");
+    std::env::set_var("RUST_BACKTRACE", "0");
     runner::quiet_panics();
     let verif_dir = std::env::var("VERIF_DIR").unwrap_or_else(|_| "/verif".to_string());
     let known = runner::load_known(&verif_dir);
